@@ -2,14 +2,15 @@ import MsqProofs.Lemmas.AnalyzeText2
 /-!
 # Cutting the token rendering of a SELECT branch into its clauses (C14 / C15 on texts)
 
-`CT.cut c ts` reads the TOP-LEVEL tokens of a token list (bracket groups are single tokens: what is inside is at depth > 0 and is never
-looked at) and returns the tokens of clause number `c`:
+`CT.cut p ts` reads the TOP-LEVEL tokens of a token list (bracket groups are single tokens: what is inside is at depth > 0 and is never
+looked at) and returns the tokens of the clauses whose number satisfies `p`:
 
-| 0 | `SELECT [DISTINCT] list` | 1 | `FROM …` | 2 | every `… JOIN … [ON …]` | 3 | `WHERE …` | 4 | `GROUP BY …` | 5 | `HAVING …` | 6 | `ORDER BY …` | 7 | `LIMIT …` |
+| 0 | `SELECT [DISTINCT] list` | 1 | `FROM …` | 3 | `WHERE …` | 4 | `GROUP BY …` | 5 | `HAVING …` | 6 | `ORDER BY …` | 7 | `LIMIT …` |
+| 2 | `… JOIN table [AS alias]` | 8 | `ON condition` (inside the JOIN segment) |
 
 A token starts clause `k` iff it is a clause word (`clauseRank`): `FROM` (1); `JOIN`, `INNER`, `LEFT`, `RIGHT`, `FULL` (2); `CROSS`
 directly followed by `JOIN` (2: the lexer gives `CROSS` the NAME mark, it may be a function name or an alias elsewhere); `WHERE` (3);
-`GROUP` (4); `HAVING` (5); `ORDER` (6); `LIMIT` (7).  The token directly after `AS` is an alias and never a clause word.  Every token
+`GROUP` (4); `HAVING` (5); `ORDER` (6); `LIMIT` (7); `ON` (8).  The token directly after `AS` is an alias and never a clause word.  Every token
 belongs to the clause of the last clause word before it (the tokens before the first clause word: clause 0).
 
 `CT.cut_toksS3`: on the rendering of a SELECT of the fragment `TQ.FragS3` the cut returns exactly the pieces the printer concatenated
@@ -34,25 +35,28 @@ def clauseRank (t : Tok) (next : List Tok) : Option Nat :=
   else if t.equalsStr "HAVING" then some 5
   else if t.equalsStr "ORDER" then some 6
   else if t.equalsStr "LIMIT" then some 7
+  else if t.equalsStr "ON" then some 8
   else none
 
-/-- **the tokens of clause `c`**: `cur` = the clause we are in, `as_` = the previous token was `AS` -/
-def cut (c : Nat) : Nat → Bool → List Tok → List Tok
+/-- **the tokens of the clauses selected by `p`**: `cur` = the clause we are in, `as_` = the previous token was `AS` -/
+def cut (p : Nat → Bool) : Nat → Bool → List Tok → List Tok
   | _, _, [] => []
   | cur, as_, t :: r =>
-    (if (if as_ then cur else (clauseRank t r).getD cur) == c then [t] else []) ++
-      cut c (if as_ then cur else (clauseRank t r).getD cur) (!as_ && t.equalsStr "AS") r
+    (if p (if as_ then cur else (clauseRank t r).getD cur) then [t] else []) ++
+      cut p (if as_ then cur else (clauseRank t r).getD cur) (!as_ && t.equalsStr "AS") r
 
 /-- the clause `c` of a branch's token list -/
-def clauseToks (c : Nat) (ts : List Tok) : List Tok := cut c 0 false ts
-/-- C14: the FROM segment / the JOIN segment of a branch's token list -/
+def clauseToks (c : Nat) (ts : List Tok) : List Tok := cut (· == c) 0 false ts
+/-- C14: the FROM segment / the JOIN segment (join heads, joined tables and ON conditions) of a branch's token list -/
 def cutFrom (ts : List Tok) : List Tok := clauseToks 1 ts
-def cutJoins (ts : List Tok) : List Tok := clauseToks 2 ts
+def cutJoins (ts : List Tok) : List Tok := cut (fun k => k == 2 || k == 8) 0 false ts
+/-- the ON conditions of a token list, each with its `ON` word -/
+def cutOns (ts : List Tok) : List Tok := clauseToks 8 ts
 
 /-! ### tokens that are no clause words -/
 def noneOf (ws : List String) (t : Tok) : Bool := ws.all fun k => !t.equalsStr k
 /-- the clause words the lexer gives no NAME mark -/
-def cwords : List String := ["FROM", "JOIN", "INNER", "LEFT", "RIGHT", "FULL", "WHERE", "GROUP", "HAVING", "ORDER", "LIMIT"]
+def cwords : List String := ["FROM", "JOIN", "INNER", "LEFT", "RIGHT", "FULL", "WHERE", "GROUP", "HAVING", "ORDER", "LIMIT", "ON"]
 /-- `t` is none of the unambiguous clause words (it may be `AS` or `CROSS`) -/
 def quietW (t : Tok) : Bool := noneOf cwords t
 /-- `t` is no clause word, not `AS`, not `CROSS` -/
@@ -70,45 +74,46 @@ theorem rank_quiet {t : Tok} (h : quietW t = true) (next : List Tok) (hc : (t.eq
   have e := fun k (hk : k ∈ cwords) => noneOf_mem h hk
   simp only [clauseRank, e "FROM" (by decide), e "JOIN" (by decide), e "INNER" (by decide), e "LEFT" (by decide), e "RIGHT" (by decide),
     e "FULL" (by decide), e "WHERE" (by decide), e "GROUP" (by decide), e "HAVING" (by decide), e "ORDER" (by decide), e "LIMIT" (by decide),
+    e "ON" (by decide),
     hc, Bool.or_self, Bool.false_eq_true, if_false]
 theorem rank_dull {t : Tok} (h : dull t = true) (next : List Tok) : clauseRank t next = none :=
   rank_quiet (dull_quiet h) next (by rw [noneOf_mem h (k := "CROSS") (by decide)]; rfl)
 
-theorem cut_step (c cur : Nat) (b : Bool) (t : Tok) (r : List Tok) :
-    cut c cur b (t :: r) = (if (if b then cur else (clauseRank t r).getD cur) == c then [t] else []) ++
-      cut c (if b then cur else (clauseRank t r).getD cur) (!b && t.equalsStr "AS") r := rfl
-theorem cut_dull {t : Tok} (h : dull t = true) (c cur : Nat) (b : Bool) (r : List Tok) :
-    cut c cur b (t :: r) = (if cur == c then [t] else []) ++ cut c cur false r := by
+theorem cut_step (p : Nat → Bool) (cur : Nat) (b : Bool) (t : Tok) (r : List Tok) :
+    cut p cur b (t :: r) = (if p (if b then cur else (clauseRank t r).getD cur) then [t] else []) ++
+      cut p (if b then cur else (clauseRank t r).getD cur) (!b && t.equalsStr "AS") r := rfl
+theorem cut_dull {t : Tok} (h : dull t = true) (p : Nat → Bool) (cur : Nat) (b : Bool) (r : List Tok) :
+    cut p cur b (t :: r) = (if p cur then [t] else []) ++ cut p cur false r := by
   have ha : t.equalsStr "AS" = false := noneOf_mem h (by decide)
   cases b <;> simp [cut_step, rank_dull h, ha]
-theorem cut_pair {t u : Tok} (ht : quietW t = true) (hu : dull u = true) (c cur : Nat) (b : Bool) (r : List Tok) :
-    cut c cur b (t :: u :: r) = (if cur == c then [t, u] else []) ++ cut c cur false r := by
+theorem cut_pair {t u : Tok} (ht : quietW t = true) (hu : dull u = true) (p : Nat → Bool) (cur : Nat) (b : Bool) (r : List Tok) :
+    cut p cur b (t :: u :: r) = (if p cur then [t, u] else []) ++ cut p cur false r := by
   have hj : u.equalsStr "JOIN" = false := noneOf_mem hu (by decide)
   have h1 : clauseRank t (u :: r) = none := rank_quiet ht _ (by simp [nextIs, hj])
-  have hr : ∀ b', cut c cur b' (u :: r) = (if cur == c then [u] else []) ++ cut c cur false r := fun b' => cut_dull hu c cur b' r
+  have hr : ∀ b', cut p cur b' (u :: r) = (if p cur then [u] else []) ++ cut p cur false r := fun b' => cut_dull hu p cur b' r
   rw [cut_step]
   cases b
   · simp only [h1, Option.getD_none, Bool.false_eq_true, if_false, hr]
-    by_cases hcc : (cur == c) = true <;> simp [hcc]
+    by_cases hcc : p cur = true <;> simp [hcc]
   · simp only [if_true, hr]
-    by_cases hcc : (cur == c) = true <;> simp [hcc]
+    by_cases hcc : p cur = true <;> simp [hcc]
 
 /-- a piece that the cut walks over without leaving the clause it is in -/
 def Inert (ts : List Tok) : Prop :=
-  ∀ c cur rest, cut c cur false (ts ++ rest) = (if cur == c then ts else []) ++ cut c cur false rest
+  ∀ p cur rest, cut p cur false (ts ++ rest) = (if p cur then ts else []) ++ cut p cur false rest
 
 theorem ite_app {α : Type} (p : Bool) (a b : List α) : (if p then a else []) ++ (if p then b else []) = if p then a ++ b else [] := by
   cases p <;> simp
 
-theorem Inert.nil : Inert [] := fun c cur rest => by simp
-theorem Inert.app {a b : List Tok} (ha : Inert a) (hb : Inert b) : Inert (a ++ b) := fun c cur rest => by
+theorem Inert.nil : Inert [] := fun p cur rest => by simp
+theorem Inert.app {a b : List Tok} (ha : Inert a) (hb : Inert b) : Inert (a ++ b) := fun p cur rest => by
   rw [List.append_assoc, ha, hb, ← List.append_assoc, ite_app]
-theorem Inert.cons {t : Tok} {b : List Tok} (ht : dull t = true) (hb : Inert b) : Inert (t :: b) := fun c cur rest => by
+theorem Inert.cons {t : Tok} {b : List Tok} (ht : dull t = true) (hb : Inert b) : Inert (t :: b) := fun p cur rest => by
   rw [List.cons_append, cut_dull ht, hb, ← List.append_assoc, ite_app]; rfl
 theorem Inert.one {t : Tok} (ht : dull t = true) : Inert [t] := Inert.cons ht Inert.nil
 /-- a word that may be `AS` or `CROSS` (a function name, a wildcard qualifier) in front of a token that is neither -/
 theorem Inert.pair {t u : Tok} {b : List Tok} (ht : quietW t = true) (hu : dull u = true) (hb : Inert b) : Inert (t :: u :: b) :=
-  fun c cur rest => by
+  fun p cur rest => by
     rw [List.cons_append, List.cons_append, cut_pair ht hu, hb, ← List.append_assoc, ite_app]; rfl
 theorem Inert.cast {a b : List Tok} (h : Inert a) (e : a = b) : Inert b := e ▸ h
 theorem Inert.ite {ts : List Tok} (c : Bool) (h : Inert ts) : Inert (if c then ts else []) := by
@@ -236,8 +241,7 @@ theorem dull_cmpVal (o : String) : dull (opTok (cmpVal o)) = true := by
   | none => decide
   | some e => exact List.all_eq_true.1 hall e (List.mem_of_find?_eq_some hf)
 
-def kwList : List String := ["SELECT", "DISTINCT", "CASE", "WHEN", "THEN", "ELSE", "END", "EXISTS", "NOT", "AND", "OR", "XOR", "BETWEEN", "ON",
-    "BY", "DESC", "IS", "IN", "LIKE", "RLIKE", "REGEXP", ".", "*", ",", "OUTER", "SEMI"]
+def kwList : List String := ["SELECT", "DISTINCT", "CASE", "WHEN", "THEN", "ELSE", "END", "EXISTS", "NOT", "AND", "OR", "XOR", "BETWEEN", "BY", "DESC", "IS", "IN", "LIKE", "RLIKE", "REGEXP", ".", "*", ",", "OUTER", "SEMI"]
 theorem dull_kwList : kwList.all (fun w => dull (opTok w)) = true := by decide +kernel
 theorem dull_kw (w : String) (h : w ∈ kwList) : dull (opTok w) = true := List.all_eq_true.1 dull_kwList w h
 theorem dk (w : String) (h : w ∈ kwList := by simp [kwList]) : dull (opTok w) = true := dull_kw w h
@@ -259,14 +263,14 @@ theorem inert_alias (a : Option String) : Inert (aliasToks a) := by
   cases a with
   | none => exact Inert.nil
   | some a =>
-    intro c cur rest
+    intro p cur rest
     have h1 : clauseRank (opTok "AS") (opTok a :: rest) = none := rank_quiet (by decide) _ (by
       have : (opTok "AS").equalsStr "CROSS" = false := by decide
       rw [this]; rfl)
     have h2 : (opTok "AS").equalsStr "AS" = true := by decide
     simp only [aliasToks, List.cons_append, List.nil_append, cut, h1, h2, Option.getD_none, Bool.false_eq_true, if_false, if_true,
       Bool.not_false, Bool.true_and, Bool.not_true, Bool.false_and]
-    by_cases hcc : (cur == c) = true <;> simp [hcc]
+    by_cases hcc : p cur = true <;> simp [hcc]
 
 /-! ### the expression layer: every rendering is inert -/
 variable {d : Gen.D} (ch : Expr → Bool)
